@@ -53,6 +53,9 @@ theorem bindS_eq_slots (npos : Nat) (kws : List String) (k : Nat) (ps : List OPa
         · simp only [c1, c2, c3, if_false, hrest, Except.map]
           rfl
 
+/-- a value agrees with itself (judged or not) -/
+theorem dvAgree_self (u : DVal) : dvAgree u u = true := by simp [dvAgree]
+
 /-! ### facts carried by `bindsOk` -/
 
 theorem bindsOk_clause {m : Mode} {a : AtenSchema} {s : OsSig} (h : bindsOk m a s = true) (c : Clause) :
